@@ -65,7 +65,7 @@ def abstract_episode(ep):
     if L > 0 and L < en['lags'] + en['leads'] + 1:
         return None, 'span_shorter_than_lags_plus_leads'
     cfg = {'L': L, 'lags': en['lags'], 'leads': en['leads'], 'start': s, 'end': e_, 'min': en['min'], 'max': en['max'],
-           'errors': 'raise', 'failures': 'raise', 'fault': ['none'] * L}
+           'errors': 'raise', 'failures': 'raise', 'fault': ['none'] * L, 'prior': False}
     out = [{'ev': 'solve_enter', 'cfg': cfg, 'per0': [{'st': '-', 'it': -1, 'ver': 'init'} for _ in range(L)]}]
     depth = 0
     cur_t = None
